@@ -43,7 +43,12 @@ def probeSem (base : Int) : Sem PF PF (List Int) Int (List Int) where
   applyF f x args :=
     let s : Int := f.code * base ^ (args.length + 1) +
       (args.zipIdx.foldl (fun acc ai => acc + ai.1 * base ^ (ai.2 + 1)) 0)
-    let L := f.len.getD x.length
+    -- `len = 1000 + 100 t + L`: L elements if the first argument is ≥ t, the natural length otherwise
+    let L := match f.len with
+      | some c => if c ≥ 1000 then
+          (if (args.headD 0) ≥ ((c - 1000) / 100 : Nat) then (c - 1000) % 100 else x.length)
+        else c
+      | none => x.length
     (List.range L).map fun i => s + (x[i]?).getD 0
   applyG g x :=
     let L := g.len.getD x.length
